@@ -1,11 +1,26 @@
 (* Properties_C16.v — C16: substitutions behave as finite maps from parameters to expressions. *)
-From Coq Require Import List PeanoNat Bool.
-From IprV Require Import Subst.
+From Coq Require Import List PeanoNat Bool String.
+From IprV Require Import GenTypes Derived GenDerived Subst SubstSource.
 Import ListNotations.
 
 Theorem c16_elementary_apply : forall p v q,
   (q = p -> elem_apply p v q = v) /\ (q <> p -> elem_apply p v q = Param q).
 Proof. exact elementary_domain. Qed.
+
+(* the same, about the member function's body and the constructor's initialisers as they stand in <ipr/impl>
+   (GenDerived is regenerated from the source on every run): for every interpretation of the object's members that
+   the constructor can leave behind, every parameter and every amount of evaluation fuel beyond 12 *)
+Theorem c16_elementary_source_denotes : forall (I : interp) fuel s p v q,
+  constructed I s p v ->
+  apply_source I (12 + fuel) s q = VObj (obj_of (elem_apply p (Value v) q)).
+Proof. exact elementary_source_denotes. Qed.
+
+Theorem c16_elementary_factory_forwards : elem_factory_forwards = true.
+Proof. exact elem_factory_forwards_checked. Qed.
+
+Example c16_elementary_source_nonvacuous :
+  constructed demo_interp 9 4 7 /\ map (apply_source demo_interp 12 9) [4; 5] = [VObj 7; VObj 5].
+Proof. exact elementary_source_example. Qed.
 
 Theorem c16_general_apply : forall bs q,
   gen_apply (build bs) q = match last_binding bs q with Some v => v | None => Param q end.
@@ -20,6 +35,9 @@ Example c16_nonvacuous :
 Proof. vm_compute. auto. Qed.
 
 Print Assumptions c16_elementary_apply.
+Print Assumptions c16_elementary_source_denotes.
+Print Assumptions c16_elementary_factory_forwards.
+Print Assumptions c16_elementary_source_nonvacuous.
 Print Assumptions c16_general_apply.
 Print Assumptions c16_general_one_binding_per_parameter.
 Print Assumptions c16_nonvacuous.
